@@ -116,3 +116,47 @@ func TrimLWS(b []byte, s, e int) (int, int) {
 	}
 	return s, e
 }
+
+// Span is [S,E).
+type Span struct{ S, E int }
+
+// HeaderLines splits the header block starting at offs into logical lines
+// (a line end followed by SP/HT is a fold and does not end the line). It
+// returns the line extents (terminator included), the offset right after the
+// blank line and ok=false when the block is not terminated inside b.
+func HeaderLines(b []byte, offs int) (lines []Span, end int, ok bool) {
+	eol := func(k int) int { // length of the line end at k (b[k] is CR or LF)
+		if b[k] == '\r' && k+1 < len(b) && b[k+1] == '\n' {
+			return 2
+		}
+		return 1
+	}
+	i := offs
+	for i < len(b) {
+		if b[i] == '\r' || b[i] == '\n' {
+			return lines, i + eol(i), true
+		}
+		j := i
+		for {
+			k := j
+			for k < len(b) && b[k] != '\r' && b[k] != '\n' {
+				k++
+			}
+			if k >= len(b) {
+				return lines, 0, false
+			}
+			nxt := k + eol(k)
+			if nxt >= len(b) {
+				return lines, 0, false
+			}
+			if b[nxt] == ' ' || b[nxt] == '\t' {
+				j = nxt
+				continue
+			}
+			lines = append(lines, Span{i, nxt})
+			i = nxt
+			break
+		}
+	}
+	return lines, 0, false
+}
